@@ -2,6 +2,7 @@ import IoraModel.Lemmas.HttpRespond
 import IoraModel.Lemmas.HttpRespondConn
 import IoraModel.Lemmas.HttpRespondFramer
 import IoraModel.Lemmas.HttpRespondRestart
+import IoraModel.Lemmas.HttpRespondHead
 /-
 C16 — Each HTTP request gets exactly one well-formed response, in order.
 
@@ -87,24 +88,25 @@ example : process { defaultHandler := some (fun _ r => { res := { r with suppres
 theorem O1_shutdown (srv : Server) (env : Env) (data : Bytes) (h : env.shutdownAtEntry = true) :
     process srv env data =
       (if env.transportAtEntry then
-         (if env.enqueueOk then .respond shutdownWire env.transportAtShutdownClose else .sendFailed env.transportAtShutdownClose)
+         (if env.enqueueOk then .respond (shutdownWire (isHeadRaw data)) env.transportAtShutdownClose
+          else .sendFailed env.transportAtShutdownClose)
        else .nothing) ∧
-    shutdownWire = toWire 503 (ascii "Service Unavailable")
+    (∀ head, shutdownWire head = toWire 503 (ascii "Service Unavailable")
       [(ascii "Connection", ascii "close"), (ascii "Content-Length", ascii "20"), (ascii "Content-Type", ascii "text/plain")]
-      (ascii "Server Shutting Down") :=
-  ⟨process_shutdown srv env data h, by decide +kernel⟩
+      (if head then [] else ascii "Server Shutting Down")) :=
+  ⟨process_shutdown srv env data h, by intro head; cases head <;> decide +kernel⟩
 
 /-- Pool overflow: a request that arrives while the task queue is at capacity gets, at once and on the I/O thread, exactly
     one 503 Send followed by Close; no task is created for it. -/
 theorem O1_overflow (P : Params) (p : Pool) (sid : Nat) (data : Bytes) (h : queuedCount p.tasks ≥ P.qcap) :
-    (stepPool P p (.arrive sid data)).log = p.log ++ [(sid, .send overflowWire), (sid, .close)] ∧
+    (stepPool P p (.arrive sid data)).log = p.log ++ [(sid, .send (overflowWire (isHeadRaw data))), (sid, .close)] ∧
     (stepPool P p (.arrive sid data)).tasks = p.tasks ∧
-    overflowWire = toWire 503 (ascii "Service Unavailable")
+    (∀ head, overflowWire head = toWire 503 (ascii "Service Unavailable")
       [(ascii "Connection", ascii "close"), (ascii "Content-Length", ascii "38"), (ascii "Content-Type", ascii "text/plain"),
        (ascii "Server", ascii "Iora HttpServer")]
-      (ascii "Server overloaded - please retry later") := by
+      (if head then [] else ascii "Server overloaded - please retry later")) := by
   rw [stepPool_arrive_full P p sid data h]
-  exact ⟨rfl, rfl, by decide +kernel⟩
+  exact ⟨rfl, rfl, by intro head; cases head <;> decide +kernel⟩
 
 /-- For EVERY schedule (any number of workers, any queue capacity, any interleaving of arrivals, picks and emits, handlers
     of any duration): the commands already in the engine queue together with the commands still owed by unfinished
@@ -137,10 +139,10 @@ theorem O1_seam_throw_500 (srv : Server) (env : Env) (data : Bytes) (p : ParsedR
     (h1 : env.shutdownAtEntry = false) (h2 : env.upAtSend = true) (h3 : env.enqueueOk = true) (h4 : env.upAtClose = true)
     (hp : fromWireFormat data = .ok p)
     (ht : upgradeSeam srv p = .threw std ∨ (upgradeSeam srv p = .ret none ∧ suppressSeam srv p = .threw std)) :
-    process srv env data = .respond (errorWire 500) true := by
+    process srv env data = .respond (errorWire 500 (isHeadRaw data)) true := by
   rcases ht with ht | ⟨hu, hs⟩
-  · rw [process_upgrade_threw srv env data p std h1 hp ht, errorOutcome_up env _ h2 h3, h4]
-  · rw [process_suppress_threw srv env data p std h1 hp hu hs, errorOutcome_up env _ h2 h3, h4]
+  · rw [process_upgrade_threw srv env data p std h1 hp ht, errorOutcome_up env _ _ h2 h3, h4]
+  · rw [process_suppress_threw srv env data p std h1 hp hu hs, errorOutcome_up env _ _ h2 h3, h4]
 
 example : process { upgradeHook := fun _ => .threw false } Env.up
     (ascii "GET / HTTP/1.1\r\nHost: x\r\nUpgrade: websocket\r\n\r\n") = .respond (errorWire 500) true := by decide +kernel
@@ -187,12 +189,12 @@ example : (processCalls { upgradeHook := fun _ => .ret (some { status := 101 }),
     while `_transport && !_shutdown` fails; otherwise the 503 Send and the Close — and the Close also when the engine
     refused the Send command, so an overflowing request never leaves its connection open and unanswered.  On a running
     server these are the `overflowCmds` of the pool theorems. -/
-theorem O1_overflow_every_env (env : Env) :
-    CallsShaped (overflowCalls env) ∧
-    engineCmds env (overflowCalls env) =
-      (if !env.upAtSend then [] else if env.enqueueOk then [.send overflowWire, .close] else [.close]) ∧
-    engineCmds Env.up (overflowCalls Env.up) = overflowCmds :=
-  ⟨overflowCalls_shaped env, overflowCalls_cmds env, overflowCalls_up⟩
+theorem O1_overflow_every_env (env : Env) (head : Bool) :
+    CallsShaped (overflowCalls env head) ∧
+    engineCmds env (overflowCalls env head) =
+      (if !env.upAtSend then [] else if env.enqueueOk then [.send (overflowWire head), .close] else [.close]) ∧
+    engineCmds Env.up (overflowCalls Env.up head) = overflowCmds head :=
+  ⟨overflowCalls_shaped env head, overflowCalls_cmds env head, overflowCalls_up head⟩
 
 /-! ## O1 across `stop()` / `start()` on one server object (review round 2, F2) -/
 
@@ -278,7 +280,7 @@ theorem O1_one_send_per_ticket (srv : Server) (envOf : Nat → Bytes → Env) (w
     rcases List.mem_cons.1 hm with rfl | hm
     · rcases hd.2 with h | h
       · rw [h]; exact (O1_at_most_one_send srv _ _).2.2
-      · rw [h]; decide
+      · rw [h]; cases isHeadRaw _ <;> decide
     · exact ih t hm
 
 /-- On the wire: whatever the kernel and the event loop do, what the peer of a session reads is a prefix of the
@@ -385,30 +387,82 @@ theorem O4_head_no_body (srv : Server) (env : Env) (data : Bytes) (p : ParsedReq
 /-- the bytes of a response behind the end of its header section -/
 def wireBody (w : Bytes) : Option Bytes := (splitAtSub crlf2 w).map (fun hb => hb.2)
 
-/-- The clause "a HEAD response has no body" at full strength: whichever arm of the server answers request bytes whose
-    request line says HEAD — the normal path, the error arm, the shutdown arm — no byte follows the header section. -/
-def O4_head_statement : Prop :=
-  ∀ (srv : Server) (env : Env) (data w : Bytes) (c : Bool),
-    (ascii "HEAD ").isPrefixOf data = true → process srv env data = .respond w c → wireBody w = some []
+/-- "Responses to HEAD carry no body", for EVERY arm of the server (FC16f repaired): request bytes whose request line starts
+    with `HEAD ` — whichever arm answers them, in every environment: the shutdown arm (503), the error arm (400/414/501/505 of
+    a parse reject, 500 of a throwing hook), the normal path (auto-HEAD of a GET route, 405, 404, default handler) — get
+    `toWire st text H []`: status line, field lines, the empty line and not one byte more.  The arms outside the normal path
+    decide from the raw bytes (`isHeadRequest(requestData)`), the normal path from the parsed method; the two readings agree
+    for all bytes (`fromWireFormat_head`: a request that starts with `HEAD ` and that the parser accepts has the parsed
+    method HEAD).  The one response the server does not build itself — an upgrade the subclass hook accepted — is the hook's (`hup`).  Pool
+    overflow, the fourth arm, is `O1_overflow` + `O1_overflow_every_env` with `head = isHeadRaw data`.  (On a tree whose arms
+    do not strip, `Gen.errorArmsStripHead` is false and this theorem does not build.) -/
+theorem O4_head_every_arm (srv : Server) (env : Env) (data w : Bytes) (c : Bool)
+    (hpre : (ascii "HEAD ").isPrefixOf data = true)
+    (hup : ∀ p u, fromWireFormat data = .ok p → upgradeSeam srv p ≠ .ret (some u))
+    (hr : process srv env data = .respond w c) :
+    ∃ st text H, w = toWire st text H [] := by
+  have hmeth : ∀ p, fromWireFormat data = .ok p → p.method = .HEAD := fun p hp => fromWireFormat_head data p hpre hp
+  have hg : Gen.HttpRespond.errorArmsStripHead = true := by decide
+  have hh : isHeadRaw data = true := by simp [isHeadRaw, hg, hpre]
+  have herr : ∀ s, errorOutcome env s true = .respond w c → ∃ st text H, w = toWire st text H [] := by
+    intro s h
+    unfold errorOutcome at h
+    cases hs : env.upAtSend <;> cases he : env.enqueueOk <;> simp [hs, he] at h
+    rw [← h.1, errorWire_eq s true]
+    exact ⟨_, _, _, rfl⟩
+  cases hsd : env.shutdownAtEntry with
+  | true =>
+    rw [process_shutdown srv env data hsd, hh] at hr
+    cases ht : env.transportAtEntry <;> cases he : env.enqueueOk <;> simp [ht, he] at hr
+    rw [← hr.1]
+    exact ⟨_, _, _, (O1_shutdown srv env data hsd).2 true⟩
+  | false =>
+    cases hp : fromWireFormat data with
+    | error e =>
+      rw [process_error srv env data e hsd hp, hh] at hr
+      exact herr _ hr
+    | ok p =>
+      cases hu : upgradeSeam srv p with
+      | threw std =>
+        rw [process_upgrade_threw srv env data p std hsd hp hu, hh] at hr
+        exact herr _ hr
+      | ret o =>
+        cases o with
+        | some u => exact absurd hu (hup p u hp)
+        | none =>
+          cases hs : suppressSeam srv p with
+          | threw std =>
+            rw [process_suppress_threw srv env data p std hsd hp hu hs, hh] at hr
+            exact herr _ hr
+          | ret b =>
+            rw [process_ok srv env data p b hsd hp hu hs] at hr
+            cases b with
+            | true => simp at hr
+            | false =>
+              simp only [Bool.false_eq_true, if_false] at hr
+              have hm' : (reqOf srv p).method = .HEAD := by rw [reqOf_method]; exact hmeth p hp
+              obtain ⟨H, hw, _, _⟩ := buildWire_head env (reqOf srv p) (dispatched srv p).1 hm'
+              unfold sendBlock at hr
+              cases hs2 : env.upAtSend <;> cases he : env.enqueueOk <;> simp [hs2, he] at hr
+              rw [← hr.1, hw]
+              exact ⟨_, _, H, rfl⟩
 
-/-- FC16d (recorded): every arm outside the normal path builds its own response and never looks at the method.  Witness:
-    `HEAD / HTTP/1.1` without Host on a running default server is answered `400 … Content-Length: 11` followed by the
-    11 bytes `Bad Request` (then closed).  The same holds for the shutdown arm (503 + 20 bytes) and for the 500 of a
-    throwing seam (+ 21 bytes); `sendErrorResponse` on pool overflow (503 + 38 bytes) is the fourth such arm. -/
-theorem O4_head_refuted : ¬ O4_head_statement := by
-  intro h
-  have := h {} Env.up (ascii "HEAD / HTTP/1.1\r\n\r\n") (errorWire 400) true (by decide +kernel) (by decide +kernel)
-  revert this
-  decide +kernel
-
-example : process {} { shutdownAtEntry := true } (ascii "HEAD / HTTP/1.1\r\nHost: x\r\n\r\n") = .respond shutdownWire true ∧
-    wireBody shutdownWire = some (ascii "Server Shutting Down") := by decide +kernel
+/-- the hypotheses are satisfiable, and the four arms on concrete HEAD requests: no byte behind the header section, the
+    Content-Length a GET would get is kept -/
+example : (fromWireFormat (ascii "HEAD /x HTTP/1.1\r\nHost: a\r\n\r\n")).toOption.map (·.method) = some .HEAD := by decide +kernel
+example : process {} Env.up (ascii "HEAD / HTTP/1.1\r\n\r\n") = .respond (errorWire 400 true) true ∧
+    wireBody (errorWire 400 true) = some [] ∧ wireBody (errorWire 400) = some (ascii "Bad Request") := by decide +kernel
+example : process {} { shutdownAtEntry := true } (ascii "HEAD / HTTP/1.1\r\nHost: x\r\n\r\n") = .respond (shutdownWire true) true ∧
+    wireBody (shutdownWire true) = some [] := by decide +kernel
 example : process { upgradeHook := fun _ => .threw true } Env.up (ascii "HEAD / HTTP/1.1\r\nHost: x\r\nUpgrade: h2c\r\n\r\n") =
-      .respond (errorWire 500) true ∧ wireBody (errorWire 500) = some (ascii "Internal Server Error") := by decide +kernel
-example : wireBody overflowWire = some (ascii "Server overloaded - please retry later") := by decide +kernel
+      .respond (errorWire 500 true) true ∧ wireBody (errorWire 500 true) = some [] := by decide +kernel
+example : wireBody (overflowWire true) = some [] ∧
+    wireBody (overflowWire false) = some (ascii "Server overloaded - please retry later") := by decide +kernel
+/-- a request that merely contains the letters is not a HEAD request: `HEADER / …` keeps its body -/
+example : isHeadRaw (ascii "HEADER / HTTP/1.1\r\n\r\n") = false ∧ isHeadRaw (ascii "head / HTTP/1.1\r\n\r\n") = false := by decide +kernel
 
-/-- What does hold (the partial next to `O4_head_refuted`): on the normal path — request parsed, no upgrade taken, response not
-    suppressed — the response is `toWire st text H []`: status line, field lines, the empty line, and not one byte more. -/
+/-- The normal path alone, keyed on the parsed method: request parsed as HEAD, no upgrade taken, response not suppressed — the response is
+    `toWire st text H []`. -/
 theorem O4_head_partial_normal_path (srv : Server) (env : Env) (data : Bytes) (p : ParsedReq)
     (h1 : env.shutdownAtEntry = false) (h2 : env.upAtSend = true) (h3 : env.enqueueOk = true)
     (hp : fromWireFormat data = .ok p) (hu : upgradeSeam srv p = .ret none) (hs : suppressSeam srv p = .ret false)
@@ -437,13 +491,13 @@ theorem O4_throw_500 (d : Decision Handler) (req : Req) (h : Handler) (hd : d.an
 theorem O4_parse_failure (srv : Server) (env : Env) (data : Bytes) (e : ParseErr)
     (h1 : env.shutdownAtEntry = false) (h2 : env.upAtSend = true) (h3 : env.enqueueOk = true) (h4 : env.upAtClose = true)
     (hp : fromWireFormat data = .error e) :
-    process srv env data = .respond (errorWire (errStatus e)) true ∧
-    errorWire (errStatus e) = toWire (errStatus e) (statusText (errStatus e))
+    process srv env data = .respond (errorWire (errStatus e) (isHeadRaw data)) true ∧
+    errorWire (errStatus e) (isHeadRaw data) = toWire (errStatus e) (statusText (errStatus e))
       [(ascii "Connection", ascii "close"), (ascii "Content-Length", dec (statusText (errStatus e)).length),
-       (ascii "Content-Type", ascii "text/plain")] (statusText (errStatus e)) ∧
+       (ascii "Content-Type", ascii "text/plain")] (if isHeadRaw data then [] else statusText (errStatus e)) ∧
     (errStatus e = 500 ∨ errStatus e ∈ [400, 414, 501, 505]) := by
-  refine ⟨?_, errorWire_eq _, ?_⟩
-  · rw [process_error srv env data e h1 hp, errorOutcome_up env _ h2 h3, h4]
+  refine ⟨?_, errorWire_eq _ _, ?_⟩
+  · rw [process_error srv env data e h1 hp, errorOutcome_up env _ _ h2 h3, h4]
   · cases e with
     | other => left; decide
     | request s => right; exact fromWireFormat_status data s hp
